@@ -357,6 +357,36 @@ def repeat_hit(req, mode):
                    % (mode, req["halo"]), nontrivial=_nontrivial(want))
 
 
+@S.kind("mutate-then-repeat")
+def mutate_then_repeat(req, mode):
+    """History: solve with a cache, the caller modifies the returned arrays in place (scales the
+    footprint, zeroes the concentration), then repeats the identical request (same cache object or a
+    new object on the same directory): it must again get what a cache-free solve returns."""
+    Rec = rec_class()
+    d = _tmpdir()
+    try:
+        want = solve(req)
+        c1 = Rec(d)
+        first = solve(req, c1)
+        for a in first:
+            if a.flags.writeable:
+                a *= 3.0
+                a += 1.0
+        second = solve(req, c1)              # served from whatever the cache keeps for this key
+        for a in second:
+            if a.flags.writeable:
+                a[...] = -7.0
+        c2 = c1 if mode == "same-object" else Rec(d)
+        got = solve(req, c2)
+    finally:
+        shutil.rmtree(d, ignore_errors=True)
+    bad = differs(got, want)
+    if bad:
+        return Verdict(False, "after the caller modified earlier results in place, the repeated request (%s) returns %s" % (mode, bad),
+                       key="cache-hands-out-shared-arrays")
+    return Verdict(True, "repeat after in-place modification of earlier results (%s): unchanged" % mode, nontrivial=_nontrivial(want))
+
+
 # ----- the same histories through the drivers
 def _driver_config(over):
     dom = dict(nx=16, ny=12, xmax=160.0, ymax=90.0, nz=6, modes=[16, 16],
@@ -596,6 +626,9 @@ def generate(tier, rng):
     for r in reqs:
         for mode in ("same-object", "new-object"):
             yield "repeat-hit", dict(req=r, mode=mode)
+    for r in (reqs if thorough else reqs[:3]):
+        for mode in ("same-object", "new-object"):
+            yield "mutate-then-repeat", dict(req=r, mode=mode)
     for r in (reqs if thorough else reqs[:2]):
         yield "repeat-hit", dict(req=r, mode="cross-process")
     for param, x, y in _DRIVER_PAIRS:
